@@ -741,8 +741,11 @@ func zipDecides(c *aeCtx, root *ssa.Function, early func(w *world, result int64)
 	saved := c.filter
 	c.filter = nil
 	defer func() { c.filter = saved }()
+	// the relation atom is oriented by the order in which the loop names its two sequences: the
+	// result must be its sign, or its negation, in every world alike
+	var same, neg []string
 	oof = c.withRetries(root, func() {
-		n, bad = 0, nil
+		n, bad, same, neg = 0, nil, nil, nil
 		c.explore(2, 300000, func(w *world) {
 			v := c.runPair(root, w, 0, 1, nil)
 			n++
@@ -750,8 +753,12 @@ func zipDecides(c *aeCtx, root *ssa.Function, early func(w *world, result int64)
 			for rk, rv := range w.rel {
 				if strings.HasPrefix(rk, "zip:") && strings.HasSuffix(rk, "|0|1") {
 					zipSeen = true
+					msg := fmt.Sprintf("the result %d against the position-wise comparison %d [%s]", v, rv, w.describe(c.pools, c.terms))
 					if int64(rv) != v {
-						bad = append(bad, fmt.Sprintf("the result %d differs from the position-wise comparison (%d) [%s]", v, rv, w.describe(c.pools, c.terms)))
+						same = append(same, msg)
+					}
+					if int64(-rv) != v {
+						neg = append(neg, msg)
 					}
 				}
 			}
@@ -774,6 +781,11 @@ func zipDecides(c *aeCtx, root *ssa.Function, early func(w *world, result int64)
 			}
 		})
 	})
+	if len(same) > 0 && len(neg) > 0 {
+		sort.Strings(same)
+		sort.Strings(neg)
+		bad = append(bad, "the result is neither always the sign of the position-wise comparison nor always its negation: "+same[0]+" / "+neg[0])
+	}
 	sort.Strings(bad)
 	return n, bad, oof
 }
